@@ -33,10 +33,12 @@
      Progress        read() returns Ok(0) only when everything has been delivered
      Complete        when nothing is owed any more, exactly Len(Exp) bytes were delivered
      BufInv          pos <= lim <= fed <= stream length, and lim + extra = fed outside a refill
+     ErrorNotLost    an input error that arrives after part of a call's bytes were decoded is reported by the next
+                     call and by every call after it (at most MaxFail such errors are injected)
 *)
 EXTENDS Integers, Sequences, FiniteSets, TLC, Json
 
-CONSTANTS Inputs, FreeMode, CapSizes, ChunkSizes, CapPatterns, ChunkPatterns, Buf, MaxIntr
+CONSTANTS Inputs, FreeMode, CapSizes, ChunkSizes, CapPatterns, ChunkPatterns, Buf, MaxIntr, MaxFail
 
 VARIABLES inp, cin, exp, d, rd, sch, hist
 vars == <<inp, cin, exp, d, rd, sch, hist>>
@@ -141,7 +143,8 @@ D0 == [st |-> OK, rinit |-> 0, need |-> FALSE, t3 |-> "O", k |-> 0,
 
 \* ----------------------------------------------------------------------------- reader (bcj2.rs)
 R0(e) == [pc |-> "idle", room |-> 0, result |-> 0, rem |-> Len(e), total |-> 0,
-          extra |-> [s \in Streams |-> 0], fed |-> [s \in Streams |-> 0], last |-> <<"none", 0>>, calls |-> 0, intr |-> 0]
+          extra |-> [s \in Streams |-> 0], fed |-> [s \in Streams |-> 0], last |-> <<"none", 0>>, calls |-> 0, intr |-> 0,
+          fails |-> 0, err |-> ""]
 
 Ok(n) == <<"ok", n>>
 Err(c) == <<"err", c>>
@@ -160,7 +163,9 @@ Finish(r, dd) ==
 CallP(cap) ==
   /\ rd.pc = "idle"
   /\ LET dcap == Min2(cap, rd.rem) IN
-     IF dcap = 0
+     IF rd.err # ""                                   \* an input error that could not be reported at once is reported now, and again
+       THEN rd' = [rd EXCEPT !.last = Err(rd.err), !.calls = Bump(@)]
+     ELSE IF dcap = 0
        THEN rd' = [rd EXCEPT !.last = Ok(0), !.calls = Bump(@)]
        ELSE rd' = [rd EXCEPT !.pc = "run", !.room = dcap, !.result = 0, !.calls = Bump(@), !.last = <<"none", 0>>]
   /\ UNCHANGED <<inp, cin, exp, d>>
@@ -202,12 +207,21 @@ IntrP ==
                             !.last = IF rd.result # 0 THEN Ok(rd.result) ELSE Err("intr")]
   /\ UNCHANGED <<inp, cin, exp, d>>
 
+\* the source read fails with another error: what was decoded is reported first and the error is kept for the next
+\* call (the input may not repeat it); with nothing decoded the error is returned at once and not kept
+FailP ==
+  /\ rd.pc = "refill"
+  /\ rd' = [Idle(rd) EXCEPT !.extra[d.st] = rd.total, !.fails = @ + 1,
+                            !.err = IF rd.result # 0 THEN "hard" ELSE @,
+                            !.last = IF rd.result # 0 THEN Ok(rd.result) ELSE Err("hard")]
+  /\ UNCHANGED <<inp, cin, exp, d>>
+
 \* ----------------------------------------------------------------------------- environment
 Pat(ps, idx, n) == LET p == ps[idx] IN p[(n % Len(p)) + 1]
 NextCaps == IF FreeMode THEN CapSizes ELSE {Pat(CapPatterns, sch.cap, rd.calls)}
 NextChunks(s) == IF FreeMode THEN ChunkSizes ELSE {Pat(ChunkPatterns, sch.ch[s], sch.n[s])}
 
-Done == rd.pc = "idle" /\ rd.rem = 0
+Done == rd.pc = "idle" /\ (rd.rem = 0 \/ (rd.err # "" /\ rd.last = Err(rd.err)))
 Log == hist' = IF ~FreeMode /\ rd'.pc = "idle" THEN Append(hist, <<rd'.last, d'.st, rd'.rem>>) ELSE hist
 
 Call == ~Done /\ \E cap \in NextCaps : CallP(cap) /\ UNCHANGED sch /\ Log
@@ -221,8 +235,9 @@ Refill ==
           /\ sch' = [sch EXCEPT !.n[s] = Bump(@)]
   /\ Log
 Interrupt == rd.intr < MaxIntr /\ IntrP /\ UNCHANGED sch /\ Log
+Fail == rd.fails < MaxFail /\ FailP /\ UNCHANGED sch /\ Log
 Finished == Done /\ UNCHANGED vars
-Next == Call \/ DoRun \/ Refill \/ Interrupt \/ Finished
+Next == Call \/ DoRun \/ Refill \/ Interrupt \/ Fail \/ Finished
 
 Init ==
   /\ inp \in DOMAIN Inputs
@@ -241,7 +256,9 @@ TypeOK ==
   /\ d.st \in 0..9 /\ d.rinit \in 0..6 /\ d.need \in BOOLEAN /\ d.k \in 0..Len(In.flags)
   /\ rd.pc \in {"idle", "run", "refill"} /\ rd.rem \in 0..Len(Exp)
 OutputOK == d.ok
-NoSpuriousError == rd.last[1] = "err" => rd.last[2] = "intr"
+NoSpuriousError == rd.last[1] = "err" => (rd.last[2] = "intr" \/ (rd.last[2] = "hard" /\ rd.fails > 0))
+\* an input error is never lost: once one is owed, no call reports success any more
+ErrorNotLost == rd.err # "" => (rd.pc = "idle" /\ (rd.last = Err(rd.err) \/ (rd.last[1] = "ok" /\ rd.last[2] > 0)))
 Progress == rd.last = Ok(0) => rd.rem = 0
 Complete == d.outn + rd.rem = Len(Exp)
 BufInv ==
